@@ -12,6 +12,8 @@ import (
 var Base = time.Date(2022, 1, 1, 0, 0, 0, 0, time.UTC)
 
 // Now returns the virtual time, or the real time when no scheduler is installed.
+//
+//go:norace
 func Now() time.Time {
 	s := s_
 	if s == nil {
@@ -21,9 +23,13 @@ func Now() time.Time {
 }
 
 // Virtual reports whether time is virtual.
+//
+//go:norace
 func Virtual() bool { return s_ != nil }
 
 // NowNanos is the virtual clock reading.
+//
+//go:norace
 func NowNanos() int64 {
 	if s := s_; s != nil {
 		return s.now
@@ -31,6 +37,7 @@ func NowNanos() int64 {
 	return 0
 }
 
+//go:norace
 func (s *sched) addTimer(d time.Duration, period time.Duration, ch chan int64, fn, inline func()) *Timer {
 	s.timerSeq++
 	t := &vtimer{when: s.now + int64(d), seq: s.timerSeq, period: int64(period), ch: ch, fn: fn, inline: inline}
@@ -39,6 +46,8 @@ func (s *sched) addTimer(d time.Duration, period time.Duration, ch chan int64, f
 }
 
 // NewPeriodic registers a periodic virtual timer whose callback runs inside Advance (must not block).
+//
+//go:norace
 func NewPeriodic(d, period time.Duration, fn func()) *Timer {
 	s := s_
 	if s == nil || s.off() {
@@ -48,6 +57,8 @@ func NewPeriodic(d, period time.Duration, fn func()) *Timer {
 }
 
 // AfterFunc runs fn as a new thread when the virtual clock reaches now+d.
+//
+//go:norace
 func AfterFunc(d time.Duration, fn func()) *Timer {
 	s := s_
 	if s == nil || s.off() {
@@ -57,6 +68,8 @@ func AfterFunc(d time.Duration, fn func()) *Timer {
 }
 
 // AfterInline runs fn inside Advance when the virtual clock reaches now+d (fn must not block).
+//
+//go:norace
 func AfterInline(d time.Duration, fn func()) *Timer {
 	s := s_
 	if s == nil || s.off() {
@@ -66,6 +79,8 @@ func AfterInline(d time.Duration, fn func()) *Timer {
 }
 
 // Stop cancels the timer; it reports whether the timer was still pending.
+//
+//go:norace
 func (t *Timer) Stop() bool {
 	if t == nil || t.t == nil {
 		return false
@@ -76,6 +91,8 @@ func (t *Timer) Stop() bool {
 }
 
 // Reset re-arms a one-shot timer.
+//
+//go:norace
 func (t *Timer) Reset(d time.Duration) bool {
 	s := s_
 	if t == nil || t.t == nil || s == nil {
@@ -98,6 +115,8 @@ func (t *Timer) Reset(d time.Duration) bool {
 
 // Advance moves the virtual clock forward by d, firing due timers in (deadline, creation) order.
 // It is called by harness threads; it is not a scheduling point by itself.
+//
+//go:norace
 func Advance(d time.Duration) {
 	s := s_
 	if s == nil || s.off() {
@@ -153,6 +172,8 @@ func Advance(d time.Duration) {
 }
 
 // Sleep blocks the calling thread until the virtual clock has advanced by d.
+//
+//go:norace
 func Sleep(d time.Duration) {
 	s := s_
 	if s == nil {
@@ -167,6 +188,8 @@ func Sleep(d time.Duration) {
 }
 
 // PendingTimers is the number of armed virtual timers (harness diagnostics).
+//
+//go:norace
 func PendingTimers() int {
 	if s := s_; s != nil {
 		n := 0
